@@ -128,6 +128,8 @@ var c20StoreSplices = [][]byte{
 	{0xff, 0xff, 0xff, 0xff, 0xff, 0xff, 0xff, 0xff},
 	{0xfe, 0xff, 0xff, 0xff, 0xff},
 	{0xff, 0xff, 0xff, 0xff, 0xff, 0xff, 0xff, 0xff, 0x7f},
+	{0x00, 0x00, 0x00, 0x02}, // 32 Mi as a 32-bit little-endian count
+	{0x00, 0x00, 0x40, 0x00}, // 4 Mi
 }
 
 func TestVerif_C20Store(t *testing.T) {
@@ -170,7 +172,7 @@ func TestVerif_C20Store(t *testing.T) {
 			rep.Finding(ci, "C20/stored-"+loader+"/"+rule, detail+" | "+shape, map[string]interface{}{"loader": loader, "shape": shape, "hex": hex.EncodeToString(data[:minI(len(data), 1000)])})
 		}
 	}
-	per := verifkit.N(6, 600)
+	per := verifkit.N(4, 600)
 	for sel, loader := range c20Loaders {
 		for k := 0; k < per; k++ {
 			ci++
